@@ -21,7 +21,23 @@ def sortBlocks (bs : List Block) : List Block := bs.foldr insertBlock []
 def showReport (r : Report) : List String :=
   s!"report ts={r.ts} n={r.blocks.length} len={marshalledLen r}" :: (sortBlocks r.blocks).map showBlock
 
-/-- ops: `add at=<ns> ssrc= seq= ecn=` (no output) | `build at=<ns> max=<bytes>` → canonical report. -/
+/-- `addrun`: `n` consecutive in-order packets `seq, seq+1, …` (mod 2^16) at `at, at+step, …`,
+each through `addPacket` (the repeat form only makes long histories cheap to write down). -/
+def addRun : Nat → Recorder → Int → Int → Nat → Nat → Nat → Recorder
+  | 0, r, _, _, _, _, _ => r
+  | n + 1, r, at_, step, ssrc, sn, ecn =>
+    addRun n (addPacket r at_ ssrc sn ecn) (at_ + step) step ssrc ((sn + 1) % 65536) ecn
+
+/-- `buildrun`: `n` consecutive `buildReport` calls at `at, at+step, …`; every report is printed. -/
+def buildRun : Nat → Recorder → Int → Int → Int → Recorder × List String
+  | 0, r, _, _, _ => (r, [])
+  | n + 1, r, at_, step, mx =>
+    let b := buildReport r at_ mx
+    let rest := buildRun n b.1 (at_ + step) step mx
+    (rest.1, showReport b.2 ++ rest.2)
+
+/-- ops: `add at=<ns> ssrc= seq= ecn=` (no output) | `build at=<ns> max=<bytes>` → canonical report |
+`addrun at= ssrc= seq= n= step= ecn=` (no output) | `buildrun at= n= step= max=` → n reports. -/
 def recComponent : Component where
   σ := Recorder
   init := Recorder.new
@@ -33,6 +49,18 @@ def recComponent : Component where
       | some at_, some ssrc, some sn, some ecn =>
         if ssrc < 4294967296 ∧ sn < 65536 ∧ ecn < 256 ∧ ts.length = 5 then (addPacket s at_ ssrc sn ecn, [])
         else (s, ["bad-op"])
+      | _, _, _, _ => (s, ["bad-op"])
+    | some "addrun" =>
+      match getInt fs "at", getNat fs "ssrc", getNat fs "seq", getNat fs "n", getInt fs "step", getNat fs "ecn" with
+      | some at_, some ssrc, some sn, some n, some step, some ecn =>
+        if ssrc < 4294967296 ∧ sn < 65536 ∧ ecn < 256 ∧ n ≤ 200000 ∧ ts.length = 7 then
+          (addRun n s at_ step ssrc sn ecn, [])
+        else (s, ["bad-op"])
+      | _, _, _, _, _, _ => (s, ["bad-op"])
+    | some "buildrun" =>
+      match getInt fs "at", getNat fs "n", getInt fs "step", getInt fs "max" with
+      | some at_, some n, some step, some mx =>
+        if n ≤ 5000 ∧ ts.length = 5 then buildRun n s at_ step mx else (s, ["bad-op"])
       | _, _, _, _ => (s, ["bad-op"])
     | some "build" =>
       match getInt fs "at", getInt fs "max" with
